@@ -181,7 +181,7 @@ def check_passthrough(ctx, R):
         ok = len(un) == 1
         why = "expected one JokerSamples.unpack call"
         if ok:
-            raw = fl2.resolve(un[0].args[0], at=A.enclosing_stmt(un[0]))
+            raw = fl2.resolve(A.get_arg(un[0], 0, "packed_samples") or ast.Constant(value=None), at=A.enclosing_stmt(un[0]))
             if nm == "make_full_samples":
                 ok = isinstance(raw, ast.Call) and (A.call_name(raw) or "").endswith("concatenate") and isinstance(raw.args[0], ast.Call) and A.last_attr(raw.args[0]) == "run_worker"
             else:
@@ -207,26 +207,30 @@ def check_nprior(ctx):
                 "no-repeat draw of that many rows.")
     S = ctx.prog.func(_rej.MP, "rejection_sample_helper", R)
     flow = A.Flow(S)
-    kw_stores = {}
-    for tgt, val, st in flow.stores:
-        if isinstance(tgt, ast.Subscript) and A.str_const(tgt.slice) in ("n_prior_samples", "samples_idx"):
-            kw_stores[A.str_const(tgt.slice)] = (val, st)
     calls = A.find_calls(S, "marginal_ln_likelihood_helper")
-    ok_fw = "n_prior_samples" in kw_stores or any(A.get_arg(c, None, "n_prior_samples") is not None for c in calls)
+    ek = A.effective_kwargs(calls[0], S, flow) if len(calls) == 1 else None
+    if ek is None:
+        ctx.undecided(R, S, "keywords of the likelihood evaluation", "expected one marginal_ln_likelihood_helper call whose ** arguments can be read")
+        return
+    np_alts = ek.get("n_prior_samples", [])
+    ok_fw = bool(np_alts)
     ctx.check(R, S, "n_prior_samples forwarded to the likelihood evaluation", ok_fw, "n_prior_samples never reaches marginal_ln_likelihood_helper: the whole library is evaluated", key="fw")
-    if "n_prior_samples" in kw_stores:
-        val, st = kw_stores["n_prior_samples"]
-        leaves = {canon(x) for x in A.strip_ifexp(val)}
-        ctx.check(R, st, "forwarded value is n_prior_samples (default: library size)", leaves <= {"n_prior_samples", canon(parse("tb.open_file(prior_samples_file, mode='r').root[JokerSamples._hdf5_path].shape[0]"))} and "n_prior_samples" in leaves,
+    if np_alts:
+        leaves = set()
+        for terms, val, at in np_alts:
+            leaves |= {canon(x) for x in A.strip_ifexp(A.inline_temporaries(val, at, S))}
+        ctx.check(R, calls[0], "forwarded value is n_prior_samples (default: library size)", leaves <= {"n_prior_samples", canon(parse("tb.open_file(prior_samples_file, mode='r').root[JokerSamples._hdf5_path].shape[0]"))} and "n_prior_samples" in leaves,
                   "forwards `%s`" % sorted(leaves), key="fwval")
-    if "samples_idx" in kw_stores:
-        val, st = kw_stores["samples_idx"]
-        ch = val if isinstance(val, ast.Call) else None
-        ok = ch is not None and A.last_attr(ch) == "choice" and A.const_value(A.get_arg(ch, None, "replace")) is False
-        ctx.check(R, st, "random order is a no-repeat draw", ok, "random row order `%s` can repeat rows (replace is not False)" % A.unparse(val)[:70], key="choice")
-        if ch is not None:
-            size = A.get_arg(ch, 1, "size")
-            ctx.check(R, st, "random order has n_prior_samples rows", size is not None and "n_prior_samples" in A.unparse(size), "draws `%s` rows" % (A.unparse(size) if size is not None else None), key="choice-size")
+    for terms, val, at in ek.get("samples_idx", []):
+        val = A.inline_temporaries(val, at, S)
+        for ch in A.strip_ifexp(val):
+            if isinstance(ch, ast.Constant) and ch.value is None:
+                continue
+            ok = isinstance(ch, ast.Call) and A.last_attr(ch) == "choice" and A.const_value(A.get_arg(ch, None, "replace")) is False
+            ctx.check(R, calls[0], "random order is a no-repeat draw", ok, "random row order `%s` can repeat rows (replace is not False)" % A.unparse(ch)[:70], key="choice")
+            if isinstance(ch, ast.Call):
+                size = A.get_arg(ch, 1, "size")
+                ctx.check(R, calls[0], "random order has n_prior_samples rows", size is not None and "n_prior_samples" in A.unparse(size), "draws `%s` rows" % (A.unparse(size) if size is not None else None), key="choice-size")
     # guard n_prior_samples > n_total -> raise
     g = [s for s in A.walk_local(S) if isinstance(s, ast.If) and A.always_raises(s.body) and "n_prior_samples" in A.unparse(s.test) and "n_total_samples" in A.unparse(s.test)]
     ctx.check(R, S, "oversized n_prior_samples rejected", bool(g), "no raise when n_prior_samples exceeds the library", key="guard")
